@@ -63,16 +63,37 @@ Moved(t) == Map(LAMBDA ch : Under(ch, t.base), t.chars)
 AppendStr(t, str, k) == [t EXCEPT !.chars = @ \o Map(LAMBDA ch : Over(ch, k), FromStr(str))]
 AppendText(t, other) == [t EXCEPT !.chars = @ \o Moved(other)]
 
+\* append_tokens(<<[str, sty], ...>>): a fold of styled appends.  The strings are taken as they are: the
+\* statement does not say whether this entry point strips control codes (9.10.0 does not), so the drivers
+\* only pass token strings without them
+FromStrRaw(str) == [i \in DOMAIN str |-> Mk(str[i][1], str[i][2], FALSE)]
+RECURSIVE AppendTokens(_, _)
+AppendTokens(t, toks) ==
+    IF toks = <<>> THEN t
+    ELSE AppendTokens([t EXCEPT !.chars = @ \o Map(LAMBDA ch : Over(ch, Head(toks).sty), FromStrRaw(Head(toks).str))],
+                      Tail(toks))
+
+\* text.plain = str: the characters are replaced wholesale; len / plain are demanded, the styling of the
+\* new characters is whatever the code leaves (adopted), an assignment of the same string changes nothing
+SetPlain(t, str) ==
+    IF [i \in DOMAIN str |-> str[i][1]] = [i \in DOMAIN t.chars |-> t.chars[i].c] THEN t
+    ELSE [t EXCEPT !.chars = [i \in DOMAIN str |-> Mk(str[i][1], str[i][2], TRUE)]]
+
+\* blank_copy(): no characters, same base style
+BlankCopy(t) == [chars |-> <<>>, base |-> t.base]
+
 \* Text.assemble(*parts, style=base): parts are the current text, strings with a style, texts
-RECURSIVE AssembleParts(_, _, _)
-AssembleParts(acc, parts, cur) ==
+\* ("sib": the other live Text object of the history, see Derives below)
+RECURSIVE AssembleParts(_, _, _, _)
+AssembleParts(acc, parts, cur, sb) ==
     IF parts = <<>> THEN acc
     ELSE LET p == Head(parts)
              nxt == CASE p.kind = "cur"  -> AppendText(acc, cur)
+                      [] p.kind = "sib"  -> AppendText(acc, sb)
                       [] p.kind = "str"  -> AppendStr(acc, p.str, p.sty)
                       [] p.kind = "text" -> AppendText(acc, Lit(p.t))
-         IN AssembleParts(nxt, Tail(parts), cur)
-Assemble(cur, parts, base) == AssembleParts([chars |-> <<>>, base |-> base], parts, cur)
+         IN AssembleParts(nxt, Tail(parts), cur, sb)
+Assemble(cur, sb, parts, base) == AssembleParts([chars |-> <<>>, base |-> base], parts, cur, sb)
 
 \* sep.join(lines): the result takes the separator's base style (blank_copy)
 RECURSIVE JoinChars(_, _)
@@ -153,8 +174,9 @@ Truncate(t, maxw, ov, pad) ==
                     ELSE t.chars
          IN [t EXCEPT !.chars = IF pad /\ L < maxw THEN cut \o Rep(Mk(Space, 1, TRUE), maxw - L) ELSE cut]
 
-Align(t, how, width, ch) ==
-    LET t1 == Truncate(t, width, "fold", FALSE)
+\* align() truncates through truncate(width), i.e. with the Text's own overflow setting (ov; "fold" if unset)
+Align(t, how, width, ch, ov) ==
+    LET t1 == Truncate(t, width, ov, FALSE)
         ex == width - SumW(t1.chars)
     IN IF ex <= 0 THEN t1
        ELSE CASE how = "left"   -> PadRight(t1, ex, ch)
@@ -180,6 +202,20 @@ EndsWith(t, suffix) == LET n == Len(t.chars) IN
     /\ \A j \in 1..Len(suffix) : t.chars[n - Len(suffix) + j].c = suffix[j]
 RemoveSuffix(t, suffix) == IF EndsWith(t, suffix) THEN RightCrop(t, Len(suffix)) ELSE t
 
+\* fit(width): one piece per line (split on newline), each set to exactly `width` characters
+Fit(t, w) == LET ps == Split(t, <<Newline>>, FALSE, FALSE) IN [i \in DOMAIN ps |-> SetLength(ps[i], w)]
+
+\* Lines([t]).justify(console, width, how, overflow) for how in left / center / right (containers.py):
+\* left = truncate with padding; center / right = strip trailing blanks, truncate, pad with blanks
+Blank == <<Space, 1>>
+Justify(t, how, w, ov) ==
+    IF how = "left" THEN Truncate(t, w, ov, TRUE)
+    ELSE LET t1 == Truncate(Rstrip(t), w, ov, FALSE)
+             ex == w - SumW(t1.chars)
+         IN IF ex <= 0 THEN t1
+            ELSE IF how = "center" THEN PadRight(PadLeft(t1, ex \div 2, Blank), ex - (ex \div 2), Blank)
+            ELSE PadLeft(t1, ex, Blank)
+
 \* expand_tabs(n): str.expandtabs - the tab itself becomes a space (keeps its style), further
 \* spaces are new; the column restarts after a newline
 RECURSIVE ExpandFrom(_, _, _)
@@ -204,42 +240,56 @@ Res(t) == [err |-> "none", cur |-> t, pieces |-> <<>>]
 ResPieces(t, ps, pick) == [err |-> "none", cur |-> IF pick >= 1 /\ pick <= Len(ps) THEN ps[pick] ELSE t, pieces |-> ps]
 InsertAt(seq, x, pos) == SubSeq(seq, 1, pos) \o <<x>> \o SubSeq(seq, pos + 1, Len(seq))
 
-Apply(t, e) ==
+\* sb: the other live Text object of the history (operand "sib"); operands may also be the current text
+Operand(t, sb, src, lit) == CASE src = "sib" -> sb [] src = "cur" -> t [] OTHER -> Lit(lit)
+JoinLines(t, sb, e) == LET l1 == InsertAt(Map(Lit, e.others), t, e.pos)
+                       IN IF e.sibpos >= 0 THEN InsertAt(l1, sb, e.sibpos) ELSE l1
+AllFresh(t) == [t EXCEPT !.chars = Map(LAMBDA ch : [ch EXCEPT !.fresh = TRUE], @)]
+
+Apply(t, sb, e) ==
     CASE e.k = "new"           -> Res(Lit(e.t))
       [] e.k = "append_str"    -> Res(AppendStr(t, e.str, e.sty))
-      [] e.k = "append_text"   -> Res(AppendText(t, Lit(e.t)))
-      [] e.k = "assemble"      -> Res(Assemble(t, e.parts, e.base))
-      [] e.k = "join"          -> Res(Join(Lit(e.sep), InsertAt(Map(Lit, e.others), t, e.pos)))
+      [] e.k = "append_text"   -> Res(AppendText(t, Operand(t, sb, e.src, e.t)))
+      [] e.k = "append_tokens" -> Res(AppendTokens(t, e.toks))
+      [] e.k = "assemble"      -> Res(Assemble(t, sb, e.parts, e.base))
+      [] e.k = "join"          -> Res(Join(Operand(t, sb, e.sepsrc, e.sep), JoinLines(t, sb, e)))
       [] e.k = "split"         -> ResPieces(t, Split(t, e.sep, e.inc, e.ab), e.pick)
       [] e.k = "divide"        -> ResPieces(t, Divide(t, e.offs), e.pick)
+      [] e.k = "fit"           -> ResPieces(t, Fit(t, e.w), e.pick)
       [] e.k = "index"         -> IF IndexOk(t, e.i) THEN Res(Index(t, e.i))
                                   ELSE [err |-> "IndexError", cur |-> t, pieces |-> <<>>]
       [] e.k = "slice"         -> Res(Slice(t, e.hasA, e.a, e.hasB, e.b))
       [] e.k = "pad"           -> Res(Pad(t, e.n, e.ch))
       [] e.k = "pad_left"      -> Res(PadLeft(t, e.n, e.ch))
       [] e.k = "pad_right"     -> Res(PadRight(t, e.n, e.ch))
-      [] e.k = "align"         -> Res(Align(t, e.how, e.width, e.ch))
+      [] e.k = "align"         -> Res(Align(t, e.how, e.width, e.ch, e.ov))
       [] e.k = "truncate"      -> Res(Truncate(t, e.w, e.ov, e.pad))
+      [] e.k = "justify"       -> Res(Justify(t, e.how, e.w, e.ov))
       [] e.k = "right_crop"    -> Res(RightCrop(t, e.n))
       [] e.k = "set_length"    -> Res(SetLength(t, e.n))
       [] e.k = "expand_tabs"   -> Res(ExpandTabs(t, e.n))
       [] e.k = "copy"          -> Res(t)
+      [] e.k = "blank_copy"    -> Res(BlankCopy(t))
+      [] e.k = "set_plain"     -> Res(SetPlain(t, e.str))
       [] e.k = "rstrip"        -> Res(Rstrip(t))
       [] e.k = "rstrip_end"    -> Res(RstripEnd(t, e.n))
       [] e.k = "remove_suffix" -> Res(RemoveSuffix(t, e.suffix))
       [] e.k = "stylize"       -> Res(Stylize(t, e.sty, e.a, e.hasB, e.b))
       [] e.k = "copy_styles"   -> Res(CopyStyles(t, e.spans))
-      [] e.k = "highlight"     -> Res([t EXCEPT !.chars = Map(LAMBDA ch : [ch EXCEPT !.fresh = TRUE], @)])
+      [] e.k = "highlight"     -> Res(AllFresh(t))
+      [] e.k = "highlighter"   -> Res(AllFresh(t))
       [] OTHER                 -> [err |-> "unknown-op", cur |-> t, pieces |-> <<>>]
 
-StyleOnly == {"stylize", "copy_styles", "highlight"}
+StyleOnly == {"stylize", "copy_styles", "highlight", "highlighter"}
 
 \* calls that return a NEW object and leave the old one alive; "swap" continues with the old one:
 \* an edit of one must never show on the other (no shared span list / text)
-Deriving == {"new", "assemble", "join", "split", "divide", "index", "slice", "copy"}
-Derives(e, r) == \/ e.k \in (Deriving \ {"split", "divide"})
-                 \/ (e.k = "append_text" /\ e.via = "add")
-                 \/ (e.k \in {"split", "divide"} /\ e.pick >= 1 /\ e.pick <= Len(r.pieces))
+Deriving == {"new", "assemble", "join", "split", "divide", "fit", "index", "slice", "copy", "blank_copy"}
+Pieces == {"split", "divide", "fit"}
+Derives(e, r) == \/ e.k \in (Deriving \ Pieces)
+                 \/ (e.k \in {"append_text", "append_str"} /\ e.via = "add")
+                 \/ (e.k = "highlighter" /\ e.how = "call")
+                 \/ (e.k \in Pieces /\ e.pick >= 1 /\ e.pick <= Len(r.pieces))
 
 
 \* ---- observation and comparison (property part) -------------------------------------------
